@@ -2,6 +2,7 @@ package c11
 
 import (
 	"encoding/json"
+	"errors"
 	"fmt"
 	"math/rand"
 	"net"
@@ -89,7 +90,18 @@ func (e *engine) getWorld(seed int64) (*world, error) {
 		return e.w, nil
 	}
 	t0 := time.Now()
-	w, err := newWorld()
+	var w *world
+	var err error
+	for try := 0; try < 3; try++ { // no free port / refused connection on a loaded machine: try again
+		if w, err = newWorld(); err == nil {
+			break
+		}
+		var le *lossErr
+		if errors.As(err, &le) {
+			break
+		}
+		time.Sleep(500 * time.Millisecond)
+	}
 	if err != nil {
 		return nil, err
 	}
@@ -167,6 +179,11 @@ func (w *world) liveAgents() []*agentState {
 // syncFailure turns an expired harness-side wait into a wedge candidate or inconclusive.
 func syncFailure(o *outcome, err error, w *world) {
 	w.dirty = true
+	var le *lossErr
+	if errors.As(err, &le) {
+		o.add(le.f)
+		return
+	}
 	d := analyseDump(w.ts)
 	if len(d.Waiters) > 0 && len(d.Holders) == 0 {
 		time.Sleep(300 * time.Millisecond)
@@ -193,6 +210,28 @@ func syncFailure(o *outcome, err error, w *world) {
 	o.incon = append(o.incon, "harness wait expired without evidence of a blocked send: "+err.Error())
 }
 
+// afterConcurrency marks what a quiescent login found right after a phase with several
+// simultaneous writers of the retained log: on a tree whose log is not synchronised, lost
+// or duplicated entries show up here first, as whatever the damaged entry was.
+func afterConcurrency(fs []finding) []finding {
+	for i := range fs {
+		if strings.HasPrefix(fs[i].Sig, "replay:") && !strings.Contains(fs[i].Sig, "concurrent-writers") {
+			fs[i].Sig += "(after-concurrent-writers)"
+		}
+	}
+	return fs
+}
+
+// worldFailure: the base history could not be built.
+func worldFailure(o *outcome, err error) {
+	var le *lossErr
+	if errors.As(err, &le) {
+		o.add(le.f)
+		return
+	}
+	o.incon = append(o.incon, "world: "+err.Error())
+}
+
 func sameIDs(a, b []gInfo) bool {
 	x, y := ids(a), ids(b)
 	if len(x) == 0 || len(x) > len(y) {
@@ -217,7 +256,7 @@ func sameIDs(a, b []gInfo) bool {
 func (e *engine) scenReplay(sp Spec) (o outcome) {
 	w, err := e.getWorld(sp.Seed)
 	if err != nil {
-		o.incon = append(o.incon, "world: "+err.Error())
+		worldFailure(&o, err)
 		return
 	}
 	w.scen++
@@ -281,16 +320,16 @@ func (w *world) observeQuirks(c *lib.Ctx, replay []opclient.Frame) {
 // ---------------------------------------------------------------------------------
 
 type srcPlan struct {
-	name   string
-	toks   []string
-	oneSh  []bool
-	run    func() error
+	name  string
+	toks  []string
+	oneSh []bool
+	run   func() error
 }
 
 func (e *engine) scenLive(sp Spec, race bool) (o outcome) {
 	w, err := e.getWorld(sp.Seed)
 	if err != nil {
-		o.incon = append(o.incon, "world: "+err.Error())
+		worldFailure(&o, err)
 		return
 	}
 	w.scen++
@@ -418,6 +457,7 @@ func (e *engine) scenLive(sp Spec, race bool) (o outcome) {
 		name string
 		err  error
 	}
+	keysBefore := w.clientKeys()
 	var racers []*racer
 	if race {
 		lsn = w.lsnName()
@@ -434,6 +474,11 @@ func (e *engine) scenLive(sp Spec, race bool) (o outcome) {
 			r := &racer{name: w.newcomerName()}
 			racers = append(racers, r)
 			delay := time.Duration(rng.Intn(4000)) * time.Microsecond
+			// the racer's own one-shot marker: its handler reads it only after the replay, so
+			// its echo proves that the replay is over (the barrier alone does not: live
+			// frames interleave with a replay in progress)
+			mark := w.token()
+			w.m.oneShot(mark, "op:"+r.name)
 			plans = append(plans, &srcPlan{name: "login:" + r.name, run: func() error {
 				time.Sleep(delay)
 				cl, err := opclient.Dial(w.addr, nil)
@@ -444,6 +489,12 @@ func (e *engine) scenLive(sp Spec, race bool) (o outcome) {
 				ok, err := cl.Login(r.name, "pw-"+r.name, syncWait)
 				if err != nil || !ok {
 					return &syncErr{fmt.Sprintf("racing login: ok=%v err=%v", ok, err)}
+				}
+				if err := oneShotChat(cl, "MARK "+mark); err != nil {
+					return &syncErr{"racing marker send: " + err.Error()}
+				}
+				if !waitTok(cl, mark, syncWait) {
+					return &syncErr{"racing newcomer's end-of-replay marker not echoed"}
 				}
 				return nil
 			}})
@@ -472,7 +523,12 @@ func (e *engine) scenLive(sp Spec, race bool) (o outcome) {
 		go func(i int, p *srcPlan) {
 			defer wg.Done()
 			<-start
-			errs[i] = p.run()
+			// a source may call the teamserver's API directly (listener add/remove): a panic
+			// of the code under test must become a finding, not the end of the worker
+			if pv, stack := lib.Guard(func() { errs[i] = p.run() }); pv != nil {
+				errs[i] = &lossErr{finding{Sig: lib.PanicSig(pv, stack), What: fmt.Sprintf("panic in %s while other writers of the retained log were active: %v", p.name, pv),
+					Det: map[string]any{"stack": brief([]byte(stack))}}}
+			}
 		}(i, p)
 	}
 	close(start)
@@ -526,10 +582,11 @@ func (e *engine) scenLive(sp Spec, race bool) (o outcome) {
 		if r.cl == nil {
 			continue
 		}
-		tok := w.m.lastBarrier
-		if !waitTok(r.cl, tok, syncWait) {
-			syncFailure(&o, &syncErr{"barrier not delivered to racing newcomer " + r.name}, w)
-			return
+		for _, tok := range w.m.lastBarrier {
+			if !waitTok(r.cl, tok, syncWait) {
+				syncFailure(&o, &syncErr{"barrier not delivered to racing newcomer " + r.name}, w)
+				return
+			}
 		}
 		fr := r.cl.Frames()
 		o.add(wholeFrames(fr)...)
@@ -571,13 +628,24 @@ func (e *engine) scenLive(sp Spec, race bool) (o outcome) {
 			})
 		}
 	}
+	if len(racers) > 0 {
+		// every connection that did not exist before the phase must have left the table
+		for k := range w.clientKeys() {
+			if _, old := keysBefore[k]; !old {
+				if err := w.waitGone(k); err != nil {
+					syncFailure(&o, err, w)
+					return
+				}
+			}
+		}
+	}
 	// afterwards, at quiescence, the retained log is replayed exactly
 	res, fs, err := w.quiescentLoginCheck(func() (*opclient.Client, error) { return opclient.Dial(w.addr, nil) })
 	if err != nil {
 		syncFailure(&o, err, w)
 		return
 	}
-	o.add(fs...)
+	o.add(afterConcurrency(fs)...)
 	e.c.Observe("replay_frames_compared", int64(len(res.replay)))
 	e.c.Observe("quiescent_logins", 1)
 	if err := w.leave(res); err != nil {
@@ -894,7 +962,7 @@ func (e *engine) afterFault(o *outcome, w *world, v *victim, from []int, expect 
 		syncFailure(o, err, w)
 		return
 	}
-	o.add(fs...)
+	o.add(afterConcurrency(fs)...)
 	e.c.Observe("replay_frames_compared", int64(len(res.replay)))
 	e.c.Observe("late_logins_after_fault", 1)
 	if err := w.leave(res); err != nil {
@@ -911,7 +979,7 @@ func lockLeftFinding(v *victim) finding {
 func (e *engine) scenCut(sp Spec) (o outcome) {
 	w, err := e.getWorld(sp.Seed)
 	if err != nil {
-		o.incon = append(o.incon, "world: "+err.Error())
+		worldFailure(&o, err)
 		return
 	}
 	if len(w.calib) == 0 {
@@ -1018,6 +1086,12 @@ wait:
 		return
 	}
 	hookPauseNs.Store(0)
+	// the victim's removal (its handler's own broadcast, then the Delete) must be over
+	// before the teamserver counts as quiescent again
+	if err := w.waitGone(v.id); err != nil {
+		syncFailure(&o, err, w)
+		return
+	}
 	e.afterFault(&o, w, v, from, expect, []int{0, 1, 2})
 	return
 }
@@ -1025,7 +1099,7 @@ wait:
 func (e *engine) scenStall(sp Spec, bound time.Duration) (o outcome) {
 	w, err := e.getWorld(sp.Seed)
 	if err != nil {
-		o.incon = append(o.incon, "world: "+err.Error())
+		worldFailure(&o, err)
 		return
 	}
 	w.scen = worldMaxScen // big frames pile up in the monitors: retire this world afterwards
@@ -1070,7 +1144,14 @@ func (e *engine) scenStall(sp Spec, bound time.Duration) (o outcome) {
 	pumpEnd := make(chan struct{})
 	go func() {
 		defer close(pumpEnd)
-		for _, t := range ptoks {
+		for i, t := range ptoks {
+			// at most two chats ahead of the last echo, so that little is queued behind
+			// the blocked write once the stall bites
+			for i >= 2 && !stopPump.Load() && !waitTok(m0, ptoks[i-2], 200*time.Millisecond) {
+				if m0.Closed() {
+					return
+				}
+			}
 			if stopPump.Load() {
 				return
 			}
